@@ -33,6 +33,15 @@ def gen(rng, n, profiles):
     return out
 
 
+def extra_profiles(profiles, n_quick, n_thorough):
+    """extra_gen for install(): further cases from additional profiles, drawn AFTER the main stream (so that adding a
+    scenario class never shifts the cases the existing profiles produce for a given seed)"""
+    def extra(rng, tier):
+        cs = gen(rng, n_quick if tier == "quick" else n_thorough, profiles)
+        return [(c, c.get("meta")) for c in cs]
+    return extra
+
+
 def model_input_for(c, io, build):
     return machprog.coq_case(c, io.get("oracle", []))
 
@@ -213,6 +222,8 @@ def _scoped(case):
             if op == "yield":
                 struct(st["s"], vals, hands)
                 vals.add(st["x"])
+                if st.get("again"):
+                    vals.add(st["again"])
             elif op == "let":
                 fexpr(st["f"], vals, hands)
                 hands.add(st["h"])
